@@ -63,6 +63,9 @@ type lockRoles struct {
 	tryLock, lock, lockCtx, unlock    *ssa.Function
 	newLocker, shutdown               *ssa.Function
 	renewal                           *ssa.Function
+	// when the scheduled function is built per tenure by a function of the package (timeout.Call(l.step(ver), d)): that
+	// function and the closure it returns (which is the renewal routine, or forwards to it)
+	renewalFactory, renewalClosure *ssa.Function
 	tokenHelpers                      map[*ssa.Function]bool
 	acquiring                         map[*ssa.Function]bool
 	all, lockerFns                    []*ssa.Function
@@ -205,7 +208,18 @@ func resolveLockRoles(c *Ctx) *lockRoles {
 					r.renewal = other
 				}
 			}
+			if fc, isCall := call.Call.Args[0].(*ssa.Call); isCall && r.renewal == nil {
+				// the scheduled function is built per tenure by a function of the package (`timeout.Call(l.step(ver), d)`,
+				// step returning a closure): what runs when the timer fires is that closure
+				if fac, cl := closureFactoryYA(fc); cl != nil && fac.Pkg == fn.Pkg {
+					r.renewal, r.renewalFactory, r.renewalClosure = renewalOfClosureYA(r, cl), fac, cl
+				}
+			}
 		})
+	}
+	if r.renewalFactory != nil {
+		claimFn(r.renewalFactory)
+		c.Role("locker.renewalFactory", ir.FnName(r.renewalFactory), r.renewalFactory.Pos())
 	}
 	c.RequireFn(r.renewal, "locker.renewal")
 	c.Role("locker.renewal", relName(r.renewal), r.renewal.Pos())
@@ -231,6 +245,19 @@ func (r *lockRoles) tokenRecv(in ssa.Instruction) bool {
 		}
 	}
 	return false
+}
+
+// tokenHelperCall returns in as a call of a token helper: a static call, or a call of the helper as a method value
+// (`take := l.tryLockInternal; take()`), nil otherwise.
+func (r *lockRoles) tokenHelperCall(in ssa.Instruction) *ssa.Call {
+	call, ok := in.(*ssa.Call)
+	if !ok {
+		return nil
+	}
+	if cal := calleeYA(call); cal != nil && r.tokenHelpers[cal] {
+		return call
+	}
+	return nil
 }
 
 func (r *lockRoles) tokenSend(in ssa.Instruction) bool {
@@ -476,11 +503,8 @@ func (c *Ctx) acquirePath(r *lockRoles, fn *ssa.Function) (bool, string, ssa.Ins
 			if !target(in) {
 				return false
 			}
-			ret := in.(*ssa.Return)
-			if rs := fn.Signature.Results(); rs.Len() > 0 && ir.IsErrorType(rs.At(rs.Len()-1).Type()) {
-				if isNil, known := val.KnownIsNil(ir.ResultValue(ret, rs.Len()-1)); known && !isNil {
-					return false // a failure exit on this path
-				}
+			if exitFailsOnPathYA(fn, in.(*ssa.Return), val) {
+				return false // a failure exit on this path (error known non-nil / boolean known false)
 			}
 			for _, a := range acqCalls {
 				if e := errOf(a); e != nil {
@@ -701,8 +725,8 @@ func runC04(c *Ctx) {
 	n := 0
 	for _, fn := range r.lockerFns {
 		for _, in := range ir.Calls(fn) {
-			call, ok := in.(*ssa.Call)
-			if !ok || !r.tokenHelpers[ir.StaticCallee(call)] {
+			call := r.tokenHelperCall(in)
+			if call == nil {
 				continue
 			}
 			// the block entered on the helper's success edge
@@ -714,19 +738,54 @@ func runC04(c *Ctx) {
 					}
 				}
 			}
-			if okBlk == nil {
-				c.Undecided("C04.R1", fn, "token taken", call, "cannot find the success edge of the token helper")
-				continue
+			// Two forms of one obligation. The dominance form starts on the helper's success edge and looks for exits that
+			// are failures by their shape (`return false`, `return <error known non-nil here>`). The per-path form starts at
+			// the call, follows every path on which the helper is not known to have failed (so: the token was taken), and
+			// counts an exit as failing also when the path decided so about the returned value (`return err == nil` behind
+			// err != nil; a result variable assigned on several ways). It asks about more paths and more exits, never
+			// fewer; C01.R1 classifies exits per path in the same way, so every exit of every path is either obligated here
+			// (failure: token and flag go back) or there (possible success: through a successful Create).
+			helperErr := errOf(call)
+			failing := func(x ssa.Instruction, val *ir.Valuation) bool {
+				ret, isRet := x.(*ssa.Return)
+				if !isRet || !ir.IsReturn(x) {
+					return false
+				}
+				if helperErr != nil {
+					if isNil, known := val.KnownIsNil(helperErr); known && !isNil {
+						return false // the token was not taken on this path
+					}
+				} else if k, known := val.Known(call); known && !k {
+					return false
+				}
+				return !possibleSuccessExit(fn, ret) || exitFailsOnPathYA(fn, ret, val)
 			}
 			failure := func(x ssa.Instruction) bool {
 				ret, isRet := x.(*ssa.Return)
 				return isRet && ir.IsReturn(x) && !possibleSuccessExit(fn, ret)
 			}
 			n++
-			c.NoPath("C04.R1", "failure exit returns the token", call, ir.Query{Fn: fn, FromBlock: okBlk, Block: r.tokenSend, Target: failure},
-				"an attempt fails after taking the local token and does not put it back: this Locker can never acquire again (TryLock false forever, Lock blocks) although the lock is free")
-			c.NoPath("C04.R1", "failure exit resets the held flag", call, ir.Query{Fn: fn, FromBlock: okBlk, Block: r.flagReset, Target: failure},
-				"an attempt fails after taking the local token and leaves the held flag set")
+			for _, ob := range []struct {
+				construct string
+				passes    func(ssa.Instruction) bool
+				what      string
+			}{
+				{"failure exit returns the token", r.tokenSend, "an attempt fails after taking the local token and does not put it back: this Locker can never acquire again (TryLock false forever, Lock blocks) although the lock is free"},
+				{"failure exit resets the held flag", r.flagReset, "an attempt fails after taking the local token and leaves the held flag set"},
+			} {
+				if okBlk != nil {
+					w, err := (ir.Query{Fn: fn, FromBlock: okBlk, Block: ob.passes, Target: failure}).Find()
+					if err != nil {
+						c.Undecided("C04.R1", fn, ob.construct, call, err.Error())
+						continue
+					}
+					if w != nil {
+						c.Decide("C04.R1", fn, ob.construct, call, false, ob.what+": path "+w.String(c.P))
+						continue
+					}
+				}
+				c.pathVerdict("C04.R1", fn, ob.construct, call, ir.PathQuery{Fn: fn, From: call, Stop: ob.passes, Target: failing}, ob.what)
+			}
 			// a success exit keeps both (the token is returned by Unlock)
 		}
 	}
@@ -906,12 +965,7 @@ func runC04(c *Ctx) {
 			nR8++
 			q := ir.PathQuery{Fn: fn, From: in,
 				Stop: func(x ssa.Instruction) bool {
-					if call, ok := x.(*ssa.Call); ok {
-						if cal := ir.StaticCallee(call); cal != nil && r.tokenHelpers[cal] {
-							return true
-						}
-					}
-					return false
+					return r.tokenHelperCall(x) != nil
 				},
 				Target: func(x ssa.Instruction, val *ir.Valuation) bool {
 					if r.storageCall(x, "Create") == nil {
@@ -1313,6 +1367,9 @@ func runC05(c *Ctx) {
 type verInput struct {
 	param int
 	field *types.Var
+	// factory: the routine is a closure built per tenure and the input is parameter `param` of the function that builds
+	// it (captured by the closure, written by nothing)
+	factory bool
 }
 
 // renewalInput: v (inside the renewal routine) is one of the routine's inputs - a parameter, or a field of a struct
@@ -1326,6 +1383,11 @@ func (r *lockRoles) renewalInput(v ssa.Value) (verInput, bool) {
 			}
 		}
 		return -1
+	}
+	if fn == r.renewalClosure {
+		if k, ok := r.factoryParamYA(v); ok {
+			return verInput{param: k, factory: true}, true
+		}
 	}
 	v = ir.Resolve(v)
 	if p, ok := v.(*ssa.Parameter); ok && p.Parent() == fn {
@@ -1404,6 +1466,27 @@ func (r *lockRoles) armedVersions(tc *ssa.Call) []ssa.Value {
 	if !ok {
 		// a routine whose CAS does not use an input (reported by L5): fall back to the first string parameter
 		vi = verInput{param: 1}
+	}
+	if fc, isCall := tc.Call.Args[0].(*ssa.Call); isCall && r.renewalFactory != nil && ir.StaticCallee(fc) == r.renewalFactory {
+		// the scheduled function is built by the factory: its inputs are the factory's arguments at this arming site
+		var res []ssa.Value
+		if r.renewal == r.renewalClosure {
+			if vi.factory && vi.param < len(fc.Call.Args) {
+				res = append(res, fc.Call.Args[vi.param])
+			}
+			return res
+		}
+		// the built closure forwards to the routine: the routine's input in terms of the factory's parameters
+		for _, cc := range ir.Calls(r.renewalClosure) {
+			call, isC := cc.(*ssa.Call)
+			if !isC || ir.StaticCallee(call) != r.renewal || len(call.Call.Args) <= vi.param || vi.field != nil {
+				continue
+			}
+			if k, isParam := r.factoryParamYA(call.Call.Args[vi.param]); isParam && k < len(fc.Call.Args) {
+				res = append(res, fc.Call.Args[k])
+			}
+		}
+		return res
 	}
 	mc, isMC := tc.Call.Args[0].(*ssa.MakeClosure)
 	if !isMC {
@@ -1668,7 +1751,7 @@ func (c *Ctx) noSuccessAfterGiveBack(r *lockRoles, rule string) {
 		}
 		usesHelper := false
 		for _, in := range ir.Calls(fn) {
-			if call, ok := in.(*ssa.Call); ok && r.tokenHelpers[ir.StaticCallee(call)] {
+			if r.tokenHelperCall(in) != nil {
 				usesHelper = true
 			}
 		}
@@ -1689,15 +1772,21 @@ func (c *Ctx) noSuccessAfterGiveBack(r *lockRoles, rule string) {
 				// the epilogue runs under a test of the very value that is returned behind it (`if err != nil { give back }; return err`):
 				// the same question per path, starting with what is known where the token is given back
 				pq := ir.PathQuery{Fn: fn, From: in, FromFacts: true, Target: func(x ssa.Instruction, val *ir.Valuation) bool {
-					if !target(x) {
+					return target(x) && !exitFailsOnPathYA(fn, x.(*ssa.Return), val)
+				}}
+				if w2, err2 := pq.Find(); err2 == nil && w2 == nil {
+					c.Decide(rule, fn, "an attempt that gave the token back reports failure", in, true, "")
+					return
+				}
+				// the epilogue is a join of several failing ways (loop left by its condition, or by break), so no single
+				// test dominates it: the same question over whole paths from the entry - a path that passed this send is
+				// marked, and an exit counts when the marked path does not know its result to be an error / false
+				pq = ir.PathQuery{Fn: fn, Target: func(x ssa.Instruction, val *ir.Valuation) bool {
+					if x == in {
+						val.Mark("token given back")
 						return false
 					}
-					if rs := fn.Signature.Results(); rs.Len() > 0 && ir.IsErrorType(rs.At(rs.Len()-1).Type()) {
-						if isNil, known := val.KnownIsNil(ir.ResultValue(x.(*ssa.Return), rs.Len()-1)); known && !isNil {
-							return false
-						}
-					}
-					return true
+					return val.Marked("token given back") && target(x) && !exitFailsOnPathYA(fn, x.(*ssa.Return), val)
 				}}
 				if w2, err2 := pq.Find(); err2 == nil && w2 == nil {
 					c.Decide(rule, fn, "an attempt that gave the token back reports failure", in, true, "")
